@@ -14,7 +14,8 @@ RULE = ("TC28 / TC29 subtype 0 and 1 / TC31 / TC19 messages built from DO-260A/B
         "codes 5..22 x NIC supplement bits x version {None,0,1,2} for the look-ups. Oracle: the encoded values, None exactly for 'no data' "
         "codes, selected heading = (256*sign+N)*180/256 mod 360, is_emergency per emergency state, categories per the DO-260 TC maps, "
         "monotone bounds. non-trivial = sign bit set, subtype-0 frames, 'no data' codes, supplement-resolved categories"
-        ' Also: NIC supplements and the version passed as bool / numpy integers, one constant context per sweep, all non-zero emergency states, every Mode A code x every emergency state on TC28 subtype 1 (exhaustive), every state x subtype also with the codes 7500/7600/7700/0000/7777/1200/2000/7000, an equal-parity sibling frame of the same address decoded first, RCv only for GNSS-height type codes, the look-ups of a position message called after the operational status message of the same aircraft (any version / supplements) was decoded.')
+        ' Also: NIC supplements and the version passed as bool / numpy integers, one constant context per sweep, all non-zero emergency states, every Mode A code x every emergency state on TC28 subtype 1 (exhaustive), every state x subtype also with the codes 7500/7600/7700/0000/7777/1200/2000/7000, an equal-parity sibling frame of the same address decoded first, RCv only for GNSS-height type codes, the look-ups of a position message called after the operational status message of the same aircraft (any version / supplements) was decoded.'
+        ' The selected heading is compared exactly.')
 ASSUMPTIONS = ["every non-zero TC28 emergency state (incl. 6 'downed aircraft' and the reserved 7) counts as 'an emergency state other than none'",
                "the vertical containment radius RCv of nuc_p exists only for the GNSS-height type codes 20/21 (DO-260 NUCp table)",
                "layout tables in ref/do260.py written from DO-260A (TC29 subtype 0) and DO-260B (subtype 1, TC28, TC31)",
